@@ -125,13 +125,19 @@ func c15SleepOracle(c c15SleepCfg) c15Expect {
 	}
 	overCap := c.D > limit
 	dead := c.Ctx == "precancelled" || c.Ctx == "expired"
-	hasDeadline := c.Ctx == "deadline" || c.Ctx == "deadline-nodone"
+	hasDeadline := c.Ctx == "deadline" || c.Ctx == "deadline-nodone" || c.Ctx == "cancel-after-deadline"
+	cancelAfter := c.Ctx == "cancel-after" || c.Ctx == "cancel-after-deadline"
 	beyond := hasDeadline && c.D > c.R
 	// A sleep that fits the deadline is only generated with a wide berth: the
 	// deadline is at least 60 s away and at least 100x the duration, so that a
 	// scheduling stall between creating the context and reaching the builtin
 	// cannot turn it into a legitimate refusal.
 	nearDeadline := hasDeadline && !beyond && (c.R < 60*c15Sec || c.D > c.R/100)
+	if c.Ctx == "cancel-after-deadline" {
+		// the deadline is three hours away and the cancellation arrives within
+		// milliseconds: a stall cannot make the deadline matter
+		nearDeadline = !beyond && c.D > c.R/2
+	}
 
 	if overCap {
 		e.allowed[c15OutSLE] = true
@@ -149,7 +155,7 @@ func c15SleepOracle(c c15SleepCfg) c15Expect {
 			}
 		}
 	}
-	if c.Ctx == "cancel-after" {
+	if cancelAfter {
 		// the cancellation may land before the evaluator even reaches the builtin
 		e.allowed[c15OutCC] = true
 	}
@@ -157,11 +163,11 @@ func c15SleepOracle(c c15SleepCfg) c15Expect {
 	e.admissible = !nearDeadline
 	if !e.mustRefuse {
 		switch {
-		case c.Ctx == "cancel-after" && c.D >= c15Sec:
+		case cancelAfter && c.D >= c15Sec:
 			// the cancellation arrives long before the timer: must wake with context-cancelled
 			e.allowed[c15OutCC] = true
 			e.bound = time.Duration(c.Tau)
-		case c.Ctx == "cancel-after":
+		case cancelAfter:
 			e.allowed[c15OutCC] = true
 			e.allowed[c15OutNil] = true
 			e.bound = time.Duration(max(c.D, 0))
@@ -214,7 +220,7 @@ var (
 	c15MaxPool  = []int64{1, c15Ms, 5 * c15Ms, 10 * c15Ms, 20 * c15Ms, c15Sec, 30 * 60 * c15Sec, c15Hour - 1, c15Hour, c15Hour + 1, 2 * c15Hour, 100 * c15Hour, math.MaxInt64, 0, -1, -c15Hour}
 	c15DeadPool = []int64{c15Ms, 20 * c15Ms, 300 * c15Ms, 3 * c15Sec, 60 * c15Sec, 2 * c15Hour, 200 * c15Hour}
 	c15TauPool  = []int64{c15Ms, 2 * c15Ms, 5 * c15Ms, 10 * c15Ms}
-	c15CtxKinds = []string{"none", "none", "none", "deadline", "deadline", "deadline", "deadline-nodone", "cancel-after", "cancel-after", "precancelled", "expired"}
+	c15CtxKinds = []string{"none", "none", "none", "deadline", "deadline", "deadline", "deadline-nodone", "cancel-after", "cancel-after", "cancel-after-deadline", "cancel-after-deadline", "precancelled", "expired"}
 )
 
 func c15GenSleepCfg(r *fw.RNG) (c15SleepCfg, c15Expect) {
@@ -242,6 +248,10 @@ func c15GenSleepCfg(r *fw.RNG) (c15SleepCfg, c15Expect) {
 			c.R = fw.Pick(r, c15DeadPool)
 		case "cancel-after":
 			c.Tau = fw.Pick(r, c15TauPool)
+		case "cancel-after-deadline":
+			// cancelled explicitly while a DISTANT deadline is also set
+			c.Tau = fw.Pick(r, c15TauPool)
+			c.R = 3 * c15Hour
 		case "expired":
 			c.R = -fw.Pick(r, []int64{1, c15Ms, c15Hour})
 		}
@@ -318,6 +328,11 @@ func c15RunSleep(st *c15State, c c15SleepCfg, bound time.Duration) c15SleepRun {
 	case "cancel-after":
 		var cancel context.CancelFunc
 		ctx, cancel = context.WithCancel(context.Background())
+		t := time.AfterFunc(time.Duration(c.Tau), cancel)
+		cleanup = func() { t.Stop(); cancel() }
+	case "cancel-after-deadline":
+		var cancel context.CancelFunc
+		ctx, cancel = context.WithDeadline(context.Background(), time.Now().Add(time.Duration(c.R)))
 		t := time.AfterFunc(time.Duration(c.Tau), cancel)
 		cleanup = func() { t.Stop(); cancel() }
 	case "precancelled":
